@@ -55,7 +55,7 @@ func newWorld(rng *rand.Rand, chain int, epic bool, wi int) (*world, error) {
 		t = simtopo.Generate(rng, simtopo.Params{MaxASes: 6 + rng.IntN(8), CorePeering: rng.IntN(2) == 0, PeerLinks: 1 + rng.IntN(4)})
 	}
 	now := time.Now()
-	bn, err := simbeacon.New(t, simbeacon.Params{Now: now, MaxAge: 10 * time.Minute, ExpTimeMin: 20, ExpTimeMax: 255, EPIC: epic})
+	bn, err := simbeacon.New(t, simbeacon.Params{Now: now, MaxAge: 10 * time.Minute, ExpTimeMin: 20, ExpTimeMax: 255, EPIC: epic, ShortSignerPct: 30})
 	if err != nil {
 		return nil, err
 	}
